@@ -37,7 +37,7 @@ impl Clone for VarIntError { fn clone(&self) -> Self { VarIntError } }
 impl Copy for VarIntError {}
 
 impl VarInt {
-    spec fn wf(self) -> bool { self.0 <= MAX_VARINT_VALUE }
+    pub open spec fn wf(self) -> bool { self.0 <= MAX_VARINT_VALUE }
 
 //@ splice-item quic/s2n-quic-core/src/varint/mod.rs "pub const MAX: Self" vis=strip
 
